@@ -58,9 +58,10 @@ def run(ctx, info):
     ctx.coverage["elitist_set"] = {"pinned": len(pinned), "computed_now": len(now), "dropped": sorted(set(pinned) - set(now)), "new": sorted(set(now) - set(pinned))}
     r = ctx.rng
     jobs = []
+    boost = 1 if info.get("make_ok", True) else 3          # a theorem or a bridge of this property no longer checks: search harder for the failing run
     focus = sorted(set(pinned) - set(now))          # an optimizer that left the set is searched harder
     for nm in pinned:
-        reps = 1 if ctx.quick else 6
+        reps = (1 if ctx.quick else 6) * boost
         if nm in focus: reps = 6
         for _ in range(reps):
             for obj, mc in (("sphere", 40 if (ctx.quick and nm not in focus) else 70), ("step", 8)):
@@ -82,7 +83,7 @@ def run(ctx, info):
         ctx.broke(f"elitist-observed:{n}", f"the source of {n} (elitist by observation on the pinned tree: no machine-checked argument) differs from the reviewed one")
     for nm in observed:
         P0 = search.fixture_scale(nm)["population_size"]
-        reps = 40 if nm in changed else (2 if ctx.quick else 12)
+        reps = 40 if nm in changed else ((4 if ctx.quick else 12) * boost)
         for i in range(reps):
             P = r.choice([P0, int(P0 * 1.5), 2 * P0, P0 + 1, P0 + 2, P0 + 3, P0 + 6, P0 + 11]) if (nm in changed or i % 2) else P0
             jobs.append({"opt": nm, "cfg": {"max_cycles": r.choice([5, 10, 20, 40]), "population_size": P, "fitness_error": None},
